@@ -810,7 +810,11 @@ def handleEvent (c : Conn) (t : Token) : Conn × Bytes × Option Err :=
         -- once the server has confirmed the client's close, a failing read is no longer an
         -- error (the server is free to hang up right away); nor once the server's own close has
         -- been processed (fix D19: a hang-up behind it does not replace the server's reason)
-        if !c2.legacy && (c2.st = .clientClosed || c2.st.isServerClosing) then (c2, wrote, none) else (c2, wrote, e2)
+        -- (after the server's close only what the socket itself does is forgiven - the end of the
+        --  stream, a read error, bytes that do not parse -, not an error raised while that close was being processed)
+        if !c2.legacy && (c2.st = .clientClosed ||
+            (c2.st.isServerClosing && (e2 = some .unexpectedSocketClose || e2 = some .ioErrorReadingSocket || e2 = some .malformedFrame)))
+        then (c2, wrote, none) else (c2, wrote, e2)
       else (c1, wrote, none)
   | .heartbeat => (c, [], none)     -- no timers are started in this machine (see M9 / C17)
   | .setBlocked =>
